@@ -144,6 +144,24 @@ def run(ctx):
                   h.where(), "; ".join(bad[:2]))
         ctx.check(not badp and n_present >= 1, "R07.5", "%s|present-is-rejected" % name, "a key found present at execution time is answered Rejected(KeyAlreadyExists)", h.where(), "; ".join(badp[:2]))
     ctx.floor("R07.5", "put handlers on the worker", n_h, 1)
+    # ---- R07.8 the worker's presence re-check comes before the admission decision: admission has effects (it evicts - a
+    # queued duplicate put has its own live incarnation among the candidates), so "admit, then look, then give the weight
+    # back" can remove the readable entry and then find the key absent
+    from weight import WeightModel
+    M_ = WeightModel(ctx)
+    charge_ = {s_["fn"].name for s_ in M_.inc_sites if s_["amount"][0] != "binop" or s_["amount"][1] != "Sub"}
+    admit_ = {n for n, f in F.fns.items() if f.rec.get("ret", "").endswith("command::CommandStatus") and any(t.get("rpath") in charge_ for b, t in f.calls())}
+    from sym import focus as focus_
+    astop = focus_(F, admit_ | set(S.insert_fns) | set(preds))
+    for name in outer:
+        h, _ = hc[name]
+        bad8 = []
+        for p in ipaths(F, h, stop=astop, depth=3):
+            for e in p.calls(admit_):
+                if not any(a[0] == "bool" and a[1][0] == "call" and a[1][1] in preds and a[4] < e.seq for a in p.atoms):
+                    bad8.append("admission runs before the key's presence was tested (%s)" % p.show())
+        ctx.check(not bad8, "R07.8", "%s|presence-test-before-admission" % name,
+                  "on the worker the presence / readability test of the put's key precedes the admission decision (which may evict)", h.where(), "; ".join(sorted(set(bad8))[:2]))
     # ---- R07.7 nothing is taken out of the store for a put before its key has been found not readable: a removal that
     # precedes the presence test must itself be conditioned on exactly "not alive" (the liveness predicate of R09.1), else an
     # entry that reads are still serving (e.g. at its expiry instant) is removed and the put is admitted over it
